@@ -74,22 +74,22 @@ def run_case(rec, spec, variant, rng, oracles=("C01", "C02", "C05", "C06", "C12"
     rec.count(f"cases:{kind}:fmt{spec['format']}")
     rec.count(f"workload:{tag}")
 
-    def V(prop, key, msg):
+    def V(prop, key, msg, exc=None):
         if prop in oracles:
-            rec.violation(prop, f"{kind}:{key}", msg, casek)
+            rec.violation(prop, f"{kind}:{key}", msg, casek, exc=exc)
 
     try:
         b = obj if obj is not None else lib.build(spec, variant)
     except Exception as e:
         rec.count("build_refused")
         rec.note(f"constructor refused a generated valid {kind} spec: {type(e).__name__}: {e}")
-        V("C01", "constructor-refuses-valid-block", f"{type(e).__name__}: {e}")
+        V("C01", "constructor-refuses-valid-block", f"{type(e).__name__}: {e}", exc=e)
         return
     try:
         nb = int(b.nBytes)
         x1 = lib.enc(b)
     except Exception as e:
-        V("C01", "encode-raises", f"encoding a valid {kind} block raised {type(e).__name__}: {e}")
+        V("C01", "encode-raises", f"encoding a valid {kind} block raised {type(e).__name__}: {e}", exc=e)
         return
     v0 = lib.view(b, x1)
     d = rc.spec_diff(spec, v0)
@@ -141,7 +141,7 @@ def run_case(rec, spec, variant, rng, oracles=("C01", "C02", "C05", "C06", "C12"
     try:
         b2, used = lib.dec(kind, spec["format"], x1, prefix, suffix)
     except Exception as e:
-        V("C01", "decode-raises", f"decoding the library's own encoding raised {type(e).__name__}: {e}")
+        V("C01", "decode-raises", f"decoding the library's own encoding raised {type(e).__name__}: {e}", exc=e)
         return
     rec.count("oracle:C02.consumed==written")
     if used != len(x1):
@@ -150,7 +150,7 @@ def run_case(rec, spec, variant, rng, oracles=("C01", "C02", "C05", "C06", "C12"
         nb2 = int(b2.nBytes)
         x2 = lib.enc(b2)
     except Exception as e:
-        V("C01", "reencode-raises", f"re-encoding the decoded block raised {type(e).__name__}: {e}")
+        V("C01", "reencode-raises", f"re-encoding the decoded block raised {type(e).__name__}: {e}", exc=e)
         return
     if nb2 != len(x1):
         V("C02", "decoded-declared!=consumed", f"decoded block declares nBytes={nb2}, encoding has {len(x1)}")
@@ -203,8 +203,8 @@ def run_case(rec, spec, variant, rng, oracles=("C01", "C02", "C05", "C06", "C12"
                 bs, used_s = lib.dec(kind, spec["format"], xs, b"", b"\xa5\xa5")
             except Exception as e:
                 V("C06", "layout-conformant-bytes-rejected",
-                  f"{type(e).__name__}: {e} decoding reference bytes ({mode} don't-care)")
-                V("C12", "dontcare-bytes-break-decoding", f"{type(e).__name__}: {e} ({mode})")
+                  f"{type(e).__name__}: {e} decoding reference bytes ({mode} don't-care)", exc=e)
+                V("C12", "dontcare-bytes-break-decoding", f"{type(e).__name__}: {e} ({mode})", exc=e)
                 continue
             xs2 = lib.enc(bs)
             vs = lib.view(bs, xs2)
@@ -408,7 +408,7 @@ def shard_capture(desc, rec):
         except Exception as ex:
             for p in ("C06", "C02"):
                 if p in orc:
-                    rec.violation(p, f"{kind}:capture-not-decodable", f"{type(ex).__name__}: {ex}", case)
+                    rec.violation(p, f"{kind}:capture-not-decodable", f"{type(ex).__name__}: {ex}", case, exc=ex)
             continue
         used = s.tell() - e["offset"]
         rec.count("oracle:C02.capture-consumed==table-size")
